@@ -248,6 +248,9 @@ SIZE_FAMILIES = {
     # a modest number (60) of string literals containing "/*" (glob patterns, never closed by "*/") spread over a file of size n
     "glob-patterns-in-strings": lambda n: b"".join(
         b'let p%d = glob("dir%d/*");\n' % (i, i) + b"// filler\n" * max(0, (n // 60 - 26) // 10) for i in range(60)) + b'fn f() { info!("x"); }\n',
+    # n bytes of nothing but block-comment openers and as many closers: recursion in a parser must be bounded
+    "deeply-nested-block-comments": lambda n: b"/*" * (n // 4) + b" x " + b"*/" * (n // 4) + b'\nfn f() { info!("x"); }\n',
+    "long-path-chain": lambda n: b"a" + b"::a" * (n // 3) + b'!("x");\nfn f() { info!("x"); }\n',
     "many-short-lines": lambda n: b"\n".join(b"x;" for _ in range(n // 3)) + b'\ninfo!("x");\n',
 }
 
@@ -283,6 +286,11 @@ def size_family(v, work, tier, pool):
             for structured in (False, True):
                 for check in (True, False):
                     jobs.append((fam, size, structured, check, work))
+    # recursion probes at full depth in both tiers (they are cheap: a bounded parser rejects or skips them at once)
+    for fam in ("deeply-nested-block-comments", "long-path-chain"):
+        for size in (10 ** 6, 4 * 10 ** 6):
+            jobs.append((fam, size, False, True, work))
+            jobs.append((fam, size, True, False, work))
     if tier == "thorough":
         for fam in ("corpus-concatenated", "huge-comment", "huge-message-literal"):
             jobs.append((fam, 10 ** 7, False, True, work))
@@ -298,7 +306,7 @@ def size_family(v, work, tier, pool):
                         {"family": fam, "bytes": nbytes, "mode": "check" if check else "edit", "structured": structured,
                          "timed_out": timed_out, "signal": sig, "exit": ex, "wall_s": round(wall, 2), "stderr": err.decode("utf-8", "replace")})
     v.coverage["max_wall_s_by_family"] = walls
-    v.subspace("size family: 8 ordinary shapes x sizes %r x style x mode (wall limit 100 s up to 100 kB, 400 s up to 1 MB, 1800 s beyond)" % sizes, len(jobs))
+    v.subspace("size family: 8 ordinary shapes + 2 recursion probes x sizes %r x style x mode (wall limit 100 s up to 100 kB, 400 s up to 1 MB, 1800 s beyond)" % sizes, len(jobs))
 
 
 def run(tier, v):
